@@ -36,6 +36,10 @@ CLAIMS = {
    text="Privacy.tla is model-checked by TLC (PayloadIsScopedPdu, SaltFresh, NoSpuriousRefusal over all histories of sends, encrypted replies, plaintext reports, timeouts, set_keys; the pinned DES defect is reproduced by DEV_DesNoReset). Every behaviour within the bound plus a run of 90-200 unanswered requests is replayed on real DES/AES sessions (MD5/SHA-1, password/master/localized keys, varying boots/time); each emitted msgData is decrypted by the reference cipher under the independently derived key/IV and TraceSession.tla (Props={C11}) requires the plaintext to decode to exactly the scoped PDU of the request followed by < 1 block of padding; encrypted agent replies must be delivered with their exact content.",
    note="DES-CBC / AES-128-CFB / key localisation are uninterpreted in the specification; the interpretation is a pure-Python reference validated on FIPS/RFC vectors and against the openssl CLI.",
    ref="DESIGN.md 5 C11", technique="TLC model checking of Privacy.tla + behaviour replay + TLC trace validation"),
+ "C13": dict(
+   text="Usm.tla is model-checked by TLC (ViewFollowsAgent, StampFollowsAgent, EngineLearnedOnce, KeysLocalizedToLearned, GivenEngineUsedFromFirstMessage, NoRequestBeforeKeys) over all interleavings of probes, requests, accepted/lost replies, key installation and changes of the agent's identity and clock. The real sync (`with SnmpSession`) and async (`async with`) clients are driven through discovery -> set_keys -> time sync -> requests -> refresh() against a scripted v3 agent (engine ids of 5/17/32 octets, a second identity, changing boots/time, dropped replies) for {no auth, MD5, SHA-1} x {none, DES, AES} x {password, master, localized} x {engine id given, discovered}. TraceSession.tla reads the USM header of every successive request: engine id learned once or given, boots/time of the most recent accepted message, MAC valid and payload decryptable under keys localised to that engine id.",
+   note="The socket inside SnmpSession is wrapped by a recording proxy (the library code itself is unmodified). Scenario enumeration (call sequences x agent plans) is done by the driver; quick tier runs 1/9 of the product.",
+   ref="DESIGN.md 5 C13", technique="TLC model checking of Usm.tla + trace validation of the real sync/async clients against a scripted v3 agent"),
  "C14": dict(
    text="Privacy.tla (TLC) establishes salt freshness per key installation with the counter modelled modulo 8. Long seeded single-session runs (8400 / 96000 messages) of mixed requests interleaved with encrypted replies, plaintext reports, timeouts and set_keys are recorded from real DES and AES sessions; TraceSession.tla (Props={C14}) requires of every datagram: 8-octet msgPrivacyParameters never seen before in the key installation and equal to the previous + 1 (DES: boots || 32-bit counter, AES: 64-bit counter), priv flag set, msgData an OCTET STRING, and no occurrence of the request's OID octets anywhere in the datagram.",
    note="2^32 messages are not executed; uniqueness beyond the run follows from the +1 step and the transmitted counter width.",
